@@ -15,6 +15,7 @@ FAMS_Q = {
     "nest": ("nest", {}),
     "val": ("val", {}),
     "prov": ("prov", {}),
+    "provrel": ("provrel", {}),
     "bad": ("bad", {}),
     "xmod": ("xmod", {}),
     "xmod_l": ("xmod", {"small": False}),
